@@ -51,6 +51,8 @@ func main() {
 		os.Exit(cmdSelftest(os.Args[2:]))
 	case "list":
 		os.Exit(cmdList(os.Args[2:]))
+	case "names":
+		os.Exit(cmdNames(os.Args[2:]))
 	default:
 		usage()
 	}
